@@ -385,13 +385,24 @@ def main():
     sites = Flow(repo).sites()
     if not sites:
         die("no consumer join sites found (the extraction is broken)")
+    def strip(term):
+        return re.sub(r'(GUnknownLookup|AUnknown|RUnknown) "[^"]*"', r"\1", term)
+
+    def whys(*terms):
+        return "; ".join(w for t in terms for w in re.findall(r'(?:GUnknownLookup|AUnknown|RUnknown) "([^"]*)"', t))
+
     o = ["(* GENERATED by translate/c17_flow.py from breakpad-symbols/src/{lib,http}.rs — do not edit. *)",
-         "From Coq Require Import List String.", "From RM Require Import C17.FlowModel.", "Import ListNotations.",
+         "From Coq Require Import List String ZArith.", "From RM Require Import C17.FlowModel.", "Import ListNotations.",
          "Open Scope string_scope.", "",
-         "(* every join of the consumers: file, enclosing fn, call text, provenance of the root, provenance of the joined string *)",
+         "(* every join of the consumers: file, enclosing fn, call text, provenance of the root, provenance of the joined string,",
+         "   and — for an unknown provenance — what the translator saw *)",
          "Definition g_consumer_joins : list g_site := ["]
-    o.append(";\n".join('  {| s_file := "%s"; s_fn := "%s"; s_text := "%s";\n     s_root := %s; s_arg := %s |}'
-                        % (a, b, c.replace('"', '""'), r, g) for a, b, c, r, g in sites))
+    o.append(";\n".join('  {| s_file := "%s"; s_fn := "%s"; s_text := "%s";\n     s_root := %s; s_arg := %s; s_why := "%s" |}'
+                        % (a, b, c.replace('"', '""'), strip(r), strip(g), whys(r, g).replace('"', "'")) for a, b, c, r, g in sites))
+    o.append("].")
+    o += ["", "(* the same table without Coq strings (fn name as bytes), for the extracted driver *)",
+          "Definition g_flow_table : list (list Z * g_root * g_arg) := ["]
+    o.append(";\n".join("  ([%s]%%Z, %s, %s)   (* %s *)" % ("; ".join(str(x) for x in b.encode()), strip(r), strip(g), b) for a, b, c, r, g in sites))
     o.append("].")
     content = "\n".join(o) + "\n"
     path = os.path.join(outdir, "C17Flow.v")
